@@ -314,7 +314,7 @@ type Stats struct {
 	KindsUsed                                    map[string]int
 	MultiBlockTxns, ReuseAfterDelete, YoungCols  int
 	Restores, Replicas, Keyed, Seeded, Tall      int
-	Nested, LateIndexes                          int
+	Nested, LateIndexes, DroppedCols             int
 	WritesByKind                                 map[string]int
 	FailedInserts, EmittedCommits, TriggerEvents int
 	IdViolations                                 []string
@@ -505,6 +505,38 @@ func (w *World) addComp(kind string) {
 	}
 }
 
+// dropColumn drops a value column nothing hangs off (no index, trigger or sorted index targets it,
+// it is not the key): it leaves the registry, the rows lose that value
+func (w *World) dropColumn() {
+	var cands []int
+	for i, c := range w.cols {
+		if c.K == KKey {
+			continue
+		}
+		used := false
+		for _, cp := range w.comps {
+			used = used || cp.Target.ID == c.ID
+		}
+		if !used {
+			cands = append(cands, i)
+		}
+	}
+	if len(cands) == 0 || len(w.cols) <= 2 {
+		return
+	}
+	i := cands[w.rng.Intn(len(cands))]
+	col := w.cols[i]
+	w.coll.DropColumn(col.Name)
+	if w.replica != nil {
+		w.replica.DropColumn(col.Name)
+	}
+	w.cols = append(w.cols[:i:i], w.cols[i+1:]...)
+	delete(w.holey, col.ID)
+	w.emit("StDropCol %d", col.ID)
+	w.stats.DroppedCols++
+	// the next observation reports the rows that lost a value
+}
+
 func (w *World) dropComp() {
 	if len(w.comps) == 0 {
 		return
@@ -568,7 +600,88 @@ func (w *World) dump(c *column.Collection) (map[uint32]rowObs, map[string]uint32
 	if len(rows) > w.stats.MaxRows {
 		w.stats.MaxRows = len(rows)
 	}
+	if len(rows) <= 400 {
+		w.altReads(c, rows, cols)
+	}
 	return rows, c.VerifKeys(), c.Count()
+}
+
+// altReads: the other ways of reading the same cells must agree with the typed row accessors the
+// model is compared with - Row.Any, the transaction-level typed readers positioned by Range, and
+// Unmarshal for records; an unfiltered Range must visit exactly the live rows, in ascending order.
+func (w *World) altReads(c *column.Collection, rows map[uint32]rowObs, cols []Col) {
+	note := func(f string, a ...interface{}) {
+		if len(w.notes) < 20 {
+			w.notes = append(w.notes, "AltRead: "+fmt.Sprintf(f, a...))
+		}
+	}
+	c.Query(func(txn *column.Txn) error {
+		var visited []uint32
+		txn.Range(func(i uint32) {
+			visited = append(visited, i)
+			ro, live := rows[i]
+			if !live {
+				return
+			}
+			txn.QueryAt(i, func(r column.Row) error {
+				for _, col := range cols {
+					want, has := ro.vals[col.ID]
+					if col.K == KKey {
+						continue
+					}
+					v, ok := r.Any(col.Name)
+					if col.K == KBool {
+						if b, _ := v.(bool); b != has {
+							note("row %d column %s: Any() = %v, Bool() = %v", i, col.Name, v, has)
+						}
+						continue
+					}
+					if ok != has {
+						note("row %d column %s: Any() present=%v, typed accessor present=%v", i, col.Name, ok, has)
+						continue
+					}
+					if !ok {
+						continue
+					}
+					var got Val
+					switch x := v.(type) {
+					case float32:
+						got = Val{W: 4, N: uint64(math.Float32bits(x))}
+					case float64:
+						got = Val{W: 8, N: math.Float64bits(x)}
+					default:
+						got = valOfAny(col.K, v)
+					}
+					if !got.Equal(want) && !(col.K.Float() && want.N != got.N && isNaNBits(want)) {
+						note("row %d column %s: Any() = %v, typed accessor = %v", i, col.Name, got.Coq(), want.Coq())
+					}
+					if col.K == KRec || col.K == KRecCat {
+						var raw []byte
+						if !txn.Record(col.Name).Unmarshal(func(b []byte) error { raw = append([]byte(nil), b...); return nil }) || string(raw) != string(want.B) {
+							note("row %d column %s: Unmarshal saw %v, Record() = %v", i, col.Name, raw, want.B)
+						}
+					}
+				}
+				return nil
+			})
+		})
+		var live []uint32
+		for o := range rows {
+			live = append(live, o)
+		}
+		sort.Slice(live, func(a, b int) bool { return live[a] < live[b] })
+		if fmt.Sprint(live) != fmt.Sprint(visited) {
+			note("an unfiltered Range visited %v, the live rows are %v", visited, live)
+		}
+		return nil
+	})
+}
+
+func isNaNBits(v Val) bool {
+	if v.W == 4 {
+		return v.N&0x7f800000 == 0x7f800000 && v.N&0x7fffff != 0
+	}
+	return v.N&0x7ff0000000000000 == 0x7ff0000000000000 && v.N&0xfffffffffffff != 0
 }
 
 func diffRows(prev, cur map[uint32]rowObs) string {
@@ -715,6 +828,7 @@ type txnGen struct {
 	blocks     map[uint32]bool
 	filtered   bool
 	emptied    bool
+	noUnion    bool // no Union / WithUnion any more: a nested transaction may have grown the collection
 }
 
 func (g *txnGen) stmt(kind, body, res string) {
@@ -1085,6 +1199,12 @@ func (g *txnGen) doFilter(txn *column.Txn) {
 	pick := w.rng.Intn(7)
 	if g.emptied && w.rng.Chance(70) {
 		pick = 2 + w.rng.Intn(2) // after the selection was emptied: widen it again with a union
+	}
+	if g.noUnion && (pick == 2 || pick == 3) {
+		// the selection was cloned before a nested transaction added rows: whether a union picks
+		// those rows up depends on the length the selection's bitmap happened to have (observation
+		// O3 in DESIGN.md); the property speaks of sequential histories, the generator stays there
+		pick = w.rng.Intn(2)
 	}
 	g.emptied = false
 	switch pick {
@@ -1479,6 +1599,7 @@ func (w *World) runTxn() {
 				return nil
 			})
 			innerCommitted = ierr == nil
+			g.noUnion = g.filtered || len(g.body) > 0 || len(preBody) > 0
 			if !g.mustAbort {
 				g.run(txn, 1+n/2)
 			}
@@ -1804,7 +1925,7 @@ func runCaseHooked(seed uint64, idx int, prof Profile, stats *Stats, cur *atomic
 	for t := 0; t < prof.Txns; t++ {
 		w.setDoing("transaction %d of the history (or the schema step, restore or replica check around it)", t)
 		if rng.Chance(prof.SchemaPct) && !prof.NoComputed {
-			switch rng.Intn(5) {
+			switch rng.Intn(6) {
 			case 0:
 				w.addComp("index")
 			case 1:
@@ -1818,6 +1939,8 @@ func runCaseHooked(seed uint64, idx int, prof Profile, stats *Stats, cur *atomic
 					stats.YoungCols++
 				}
 				w.addColumn(kinds[rng.Intn(len(kinds))])
+			case 5:
+				w.dropColumn()
 			}
 		}
 		w.runTxn()
